@@ -62,6 +62,15 @@ def eval_prog(ld, st):
         return
     pl = discovery.plain(ld)
     tainted = tainted_star(pr)
+    ambiguous = bool(pr.taint and pr.taint[2] == 'after' and pr.context in grammar.NESTED_CONTEXTS and grammar.taints(pr.taint))
+    if tainted and ambiguous:
+        # the taint follows the invocation of the nested function: in execution order the star is pristine, a static
+        # reading may call it tainted.  Either answer is acceptable: not advertising, or advertising soundly.
+        st.inc('ambiguous_programs')
+        probe = runner.Stats()
+        if check_not_advertised(ld, sig, tainted, probe, case):
+            return
+        tainted = {}
     if tainted:
         st.inc('tainted_programs')
         check_not_advertised(ld, sig, tainted, st, case)
